@@ -4,7 +4,7 @@ import pk, life
 from common import jhash, first_diff
 from pkgrun import *
 
-PROF = profile(blocks=(1, 4), p_list=0.5, p_numbering=0.9, p_comments=0.6, p_core=0.7, p_header=0.5, p_footnotes=0.5, p_drawing=0.15, p_table=0.2, inlines=(0, 4))
+PROF = profile(blocks=(1, 4), p_comment_marker=0.12, p_list=0.5, p_numbering=0.9, p_comments=0.6, p_core=0.7, p_header=0.5, p_footnotes=0.5, p_drawing=0.15, p_table=0.2, inlines=(0, 4))
 RULE = ('generated packages x random sequences (length 4-16) of attribute reads on ONE object (23 attributes; reads sharing cached state: '
         'comments / text / runs / records / images / core properties), with in-place mutation of every string-level value returned before the '
         'next read; the same sequence through str path, PathLike and BytesIO inputs (the buffer also left at an arbitrary position, or read by another instance before) and on separate instances; per read: equal to the value of a '
@@ -75,17 +75,96 @@ def one(ctx, data, seqs, tmpdir, html, dup):
     compare_keys(ctx, 'value of a read (fresh object)', data, html, dup, i, m, VIEWS + [v + '_runs' for v in VIEWS] + ['text', 'comments', 'core', 'images'])
 
 
+def odd_prefixes(data):
+    """the same package with the customary prefixes renamed (w -> ns0, r -> ns1, m -> ns2, wp -> ns3, a -> ns4): what generic XML tools write"""
+    import re, zipfile
+    z = zipfile.ZipFile(io.BytesIO(data)); b = io.BytesIO()
+    with zipfile.ZipFile(b, 'w') as o:
+        for n in z.namelist():
+            raw = z.read(n)
+            if n.endswith('.xml') and n.startswith('word/'):
+                for k, (old, new) in enumerate([(b'w', b'ns0'), (b'r', b'ns1'), (b'm', b'ns2'), (b'wp', b'ns3'), (b'a', b'ns4')]):
+                    raw = re.sub(b'(<|</| |xmlns:)' + old + b'(:|=)', lambda mm: mm.group(1) + new + mm.group(2), raw)
+            o.writestr(n, raw)
+    return b.getvalue()
+
+
+def other_documents(ctx, sentinel, tmpdir, others):
+    """separate instances over OTHER documents in between: a fresh object over the sentinel document still returns what it returned first"""
+    data, html, dup, first = sentinel
+    ops = life.content_ops(tmpdir)
+    for k in ('save', 'save_images'): ops.pop(k)
+    for od in others:
+        with warnings.catch_warnings():
+            warnings.simplefilter('ignore')
+            try:
+                d = life.make('content', io.BytesIO(od), html, dup)
+                for name in ('document', 'document_runs', 'comments', 'images', 'core_properties'):
+                    try: ops[name](d)
+                    except Exception: pass
+                d.close()
+            except Exception: pass
+    now = {n: v for n, (v, _u) in life.fresh_values('content', data, ops, html, dup).items()}
+    ctx.evaluations += 1
+    bad = sorted(n for n in first if now.get(n) != first[n])
+    if bad:
+        ctx.fail('reading other documents in the same process changes what a fresh object returns for this one (state shared between documents)',
+                 {'archive_b64': case_payload(data)['archive_b64'], 'html': html, 'dup': dup, 'read_in_between_b64': [case_payload(o)['archive_b64'] for o in others][:2]},
+                 {'attributes': bad[:6], 'first': first[bad[0]], 'now': now[bad[0]]})
+    else: ctx.validated += 1
+    ctx.count('histories with other documents read in between')
+
+
+def new_process_history(ctx, sentinel, tmpdir):
+    """a NEW process whose first documents are the odd-prefix ones, then the sentinel: process-wide state filled by the first document read"""
+    import subprocess, sys, json as _json
+    data, html, dup, first = sentinel
+    f1 = os.path.join(tmpdir, 'odd.docx'); f2 = os.path.join(tmpdir, 'sentinel.docx')
+    open(f1, 'wb').write(odd_prefixes(data)); open(f2, 'wb').write(data)
+    code = ('import sys, json, io, warnings; sys.path[:0] = json.loads(sys.argv[1]); import life\n'
+            'warnings.simplefilter("ignore")\n'
+            'ops = life.content_ops(sys.argv[4]); [ops.pop(k) for k in ("save", "save_images")]\n'
+            'try:\n d = life.make("content", io.BytesIO(open(sys.argv[2], "rb").read()), True, True); [getattr(d, a) for a in ("document", "comments", "images")]; d.close()\n'
+            'except Exception: pass\n'
+            'print(json.dumps({n: v for n, (v, _u) in life.fresh_values("content", open(sys.argv[3], "rb").read(), ops, True, True).items()}))\n')
+    r = subprocess.run([sys.executable, '-c', code, _json.dumps(sys.path), f1, f2, tmpdir], capture_output=True, text=True, timeout=120)
+    ctx.evaluations += 1
+    try: now = _json.loads(r.stdout.strip().splitlines()[-1])
+    except Exception:
+        ctx.notes.append('new-process history could not run: ' + (r.stderr or r.stdout)[-200:]); return
+    bad = sorted(n for n in first if now.get(n) != first[n])
+    if bad:
+        ctx.fail('reading other documents in the same process changes what a fresh object returns for this one (state shared between documents)',
+                 {'archive_b64': case_payload(data)['archive_b64'], 'html': html, 'dup': dup, 'read_first_in_a_new_process_b64': case_payload(odd_prefixes(data))['archive_b64']},
+                 {'attributes': bad[:6], 'first': first[bad[0]], 'now': now[bad[0]]})
+    else: ctx.validated += 1
+    ctx.count('histories in a new process that reads an odd-prefix document first')
+
+
 def run(ctx):
     tmpdir = tempfile.mkdtemp(prefix='d2pv-c14-')
     try:
         from gen.probes import probes
         n = 14 if ctx.quick else 600
         nops = len(life.content_ops(tmpdir)) - 2
+        _names = [k for k in life.content_ops(tmpdir) if k not in ('save', 'save_images')]
+        names_of = _names.index
         srcs = [(d, random.Random(1)) for _, d in probes('C14')] + [(pkg.to_bytes(), rng) for pkg, meta, rng in stream(ctx, PROF, n)]
+        sentinel = None
         for data, rng in srcs:
             seqs = [[rng.randrange(nops) for _ in range(rng.randint(4, 16))] for _ in range(3 if ctx.quick else 8)]
-            seqs.append([2, 2, 8, 2, 18, 22, 2, 18, 21, 21, 20, 20])       # body, body, body_pars..., text, comments, core, images
+            # every attribute that shares cached state is read at least twice: body, body, body_pars, body, text, comments, body, text, comments, core x2, images x2, comments, body_runs, document_runs
+            seqs.append([names_of('body'), names_of('body'), names_of('body_pars'), names_of('body'), names_of('text'), names_of('comments'), names_of('body'), names_of('text'),
+                         names_of('comments'), names_of('core_properties'), names_of('core_properties'), names_of('images'), names_of('images'), names_of('comments'),
+                         names_of('body_runs'), names_of('document_runs'), names_of('header'), names_of('document'), names_of('header')])
             one(ctx, data, seqs, tmpdir, rng.random() < 0.4, rng.random() < 0.7)
+            if sentinel is None:
+                ops0 = life.content_ops(tmpdir)
+                for k in ('save', 'save_images'): ops0.pop(k)
+                sentinel = (data, True, True, {n: v for n, (v, _u) in life.fresh_values('content', data, ops0, True, True).items()})
+                new_process_history(ctx, sentinel, tmpdir)
+            elif ctx.evaluations % 3 == 0 or not ctx.quick:
+                other_documents(ctx, sentinel, tmpdir, [data, odd_prefixes(data), odd_prefixes(sentinel[0])])
             if ctx.evaluations % 50 < 14: ctx.sample({'reads': seqs[0]})
     finally:
         shutil.rmtree(tmpdir, ignore_errors=True)
@@ -97,6 +176,14 @@ def replay(ctx, rep):
     tmpdir = tempfile.mkdtemp(prefix='d2pv-c14-')
     try:
         ops = life.content_ops(tmpdir); names = [n for n in ops if n not in ('save', 'save_images')]
+        if 'read_first_in_a_new_process_b64' in c or 'read_in_between_b64' in c:
+            import base64
+            ops0 = {k: v for k, v in ops.items() if k not in ('save', 'save_images')}
+            data = case_data(c)
+            sentinel = (data, True, True, {n: v for n, (v, _u) in life.fresh_values('content', data, ops0, True, True).items()})
+            if 'read_first_in_a_new_process_b64' in c: new_process_history(ctx, sentinel, tmpdir)
+            else: other_documents(ctx, sentinel, tmpdir, [base64.b64decode(x) for x in c['read_in_between_b64']])
+            ctx.rule = 'replay of one stored history over several documents'; return
         seq = [names.index(r) for r in c.get('reads', ['body', 'body'])]
         one(ctx, case_data(c), [seq], tmpdir, c.get('html', False), c.get('dup', True))
     finally:
